@@ -11,7 +11,8 @@
    Elements are abstract: any type with a decidable equality. *)
 From Coq Require Import ZArith List Bool QArith.
 Import ListNotations.
-From Mds Require Import Gen.DistinctConst Distinct.DistinctModel Distinct.DistinctSpec Distinct.DistinctProofs.
+From Coq Require Import Permutation.
+From Mds Require Import Gen.DistinctConst Distinct.DistinctModel Distinct.DistinctSpec Distinct.DistinctProofs Distinct.DistinctProofsExp.
 Local Open Scope Z_scope.
 
 (* While fewer distinct values than the size have been added since construction or the last Reset
@@ -119,3 +120,59 @@ Theorem C19_len_refuted :
     run Z Z.eqb true 10 2 (init Z) ws ops = ROk s ws' /\ len Z s = 3 /\ 2 < len Z s.
 Proof. exact len_refuted. Qed.
 Print Assumptions C19_len_refuted.
+
+(* ---- probabilistic part: the SAME program [add], run in the expectation monad (A -> Q) -> Q with
+   ideal coins: the coin against the threshold passes with probability exactly 2^-k, every refill
+   is 64 independent fair bits (consumed by the very shift/test/refill statements of the code), and
+   the map order is ANY function [ord] of the buffer that enumerates it (a permutation).
+   [Erun T eqb ord true fuel cap (init T) ops f] is the expectation of f over the outcome of the
+   history ops (Add v / Reset) of the pinned single-pass code; [st_of] is the final state;
+   [estimate s] = Len * 2^k as a rational (Count without the 64-bit wrap, which C19_count_shape
+   accounts for). *)
+
+(* For every element a, every size (cap is arbitrary, even <= 1), every history:
+   E[ [a in buf] * 2^k ] = 1 once a has been added since the last Reset, 0 before. *)
+Theorem C19_unbiased_elem :
+  forall (T : Type) (eqb : T -> T -> bool), (forall x y, reflect (x = y) (eqb x y)) ->
+  forall (ord : list T -> list T), (forall l, Permutation (ord l) l) ->
+  forall (a : T) (fuel : nat) (cap : Z) (ops : list (op T)),
+    (Erun T eqb ord true fuel cap (init T) ops (fun o => phi T eqb a (st_of T o)) ==
+     (if memb T eqb a (seen T eqb ops) then 1 else 0))%Q.
+Proof. exact unbiased_elem. Qed.
+Print Assumptions C19_unbiased_elem.
+
+(* Hence E[Len * 2^k] = the number of distinct values added since construction / the last Reset,
+   exactly, also while the buffer stays full (F8 does not bias the estimate). *)
+Theorem C19_unbiased :
+  forall (T : Type) (eqb : T -> T -> bool), (forall x y, reflect (x = y) (eqb x y)) ->
+  forall (ord : list T -> list T), (forall l, Permutation (ord l) l) ->
+  forall (fuel : nat) (cap : Z) (ops : list (op T)),
+    (Erun T eqb ord true fuel cap (init T) ops (fun o => estimate T (st_of T o)) ==
+     inject_Z (Z.of_nat (distinct T eqb ops)))%Q.
+Proof. exact unbiased. Qed.
+Print Assumptions C19_unbiased.
+
+(* the hypotheses are satisfiable: Z.eqb reflects equality and the identity order is a permutation;
+   an instance at size 2.  (The statement itself was cross-checked before it was proved by exact
+   rational enumeration of the whole outcome tree: design-spikes/cvm_exact_expectation.py.txt.) *)
+Example C19_unbiased_ex :
+  (Erun Z Z.eqb (fun l => l) true 0 2 (init Z) [OAdd 1%Z None; OAdd 2%Z None] (fun o => estimate Z (st_of Z o)) == 2)%Q
+  /\ (forall l : list Z, Permutation ((fun l => l) l) l)
+  /\ distinct Z Z.eqb [OAdd 1%Z None; OAdd 2%Z None; OAdd 1%Z None; OAdd 3%Z None] = 3%nat.
+Proof.
+  split; [|split; [intros; apply Permutation_refl|reflexivity]].
+  rewrite (C19_unbiased Z Z.eqb Z.eqb_spec (fun l => l) (fun l => Permutation_refl l)). reflexivity.
+Qed.
+
+(* The real coin: after j halvings (1 <= j <= 64) the threshold is 2^(64-j) - 1 and Add goes on
+   exactly when the word drawn is below it: probability 2^-j - 2^-64 on a uniform word, against
+   the ideal 2^-j used above; with no halving yet the coin always passes (exact). *)
+Theorem C19_real_coin_gap :
+  forall j : nat, (1 <= j <= 64)%nat ->
+    (Z.shiftr maxu (Z.of_nat j) < maxu)%Z /\
+    (forall w : Z, coin_fail (Z.shiftr maxu (Z.of_nat j)) maxu w = false <-> (w < Z.shiftr maxu (Z.of_nat j))%Z) /\
+    (Z.shiftr maxu (Z.of_nat j) + 1 = 2 ^ (64 - Z.of_nat j))%Z /\
+    (inject_Z (Z.shiftr maxu (Z.of_nat j)) / inject_Z two64 == 1 / pw j - 1 / inject_Z two64)%Q /\
+    (forall w : Z, coin_fail maxu maxu w = false).
+Proof. exact real_coin_all. Qed.
+Print Assumptions C19_real_coin_gap.
